@@ -123,12 +123,16 @@ def decide(rows, req, cv, options):
   return ('update', found, 'one')
 
 
+W_TRIGGER_VALUE = 'z'     # W is a data column with the trigger formula "z" (new records only, no recalcDeps)
+
 def new_record(req, cv):
   row = dict(DEFAULT)
   for c, v in req.items():
     if c not in FNAMES:
       row[c] = v
   row.update(cv)
+  if 'W' not in cv and 'W' not in req:
+    row['W'] = W_TRIGGER_VALUE      # no value supplied: the new record gets the trigger formula's value
   return row
 
 
@@ -227,7 +231,7 @@ class Gen(object):
       single = False
     n = 1 if single else rnd.randint(2 if defect == 'duplicate_require' else 1, 4)
     empty_req = (rnd.random() < 0.07) if defect is None else (defect == 'empty_require')
-    req_pool = ['K', 'K2', 'R', 'F1', 'F2', 'F3', 'FR', 'K', 'K2', 'V']
+    req_pool = ['K', 'K2', 'R', 'F1', 'F2', 'F3', 'FR', 'K', 'K2', 'V', 'W']
     # Prefer formula columns whose inputs an earlier action of this bundle changed.
     if dirty_formulas and rnd.random() < 0.7:
       req_pool += sorted(dirty_formulas) * 4
@@ -329,6 +333,8 @@ def apply_plain(rows, a, ret):
       raise ModelError('AddRecord returned %r' % (ret,))
     row = dict(DEFAULT)
     row.update(a[3])
+    if 'W' not in a[3]:
+      row['W'] = W_TRIGGER_VALUE
     rows[ret] = row
   elif a[0] in ('RemoveRecord', 'BulkRemoveRecord'):
     gone = set([a[2]] if a[0] == 'RemoveRecord' else a[2])
@@ -361,6 +367,9 @@ def upsert_dirties(a):
 def build_doc(sess, rnd):
   from vlib import rowdoc
   rowdoc.add_table(sess, 'U', DATA, FORMULA_COLS)
+  # W is a data column that carries a trigger formula (evaluated for new records that got no value): `require`
+  # on such a column must still end up in a record the upsert adds.
+  sess.must_apply([['ModifyColumn', 'U', 'W', {'formula': '"%s"' % W_TRIGGER_VALUE, 'recalcWhen': 0, 'recalcDeps': None}]])
   n = rnd.randint(4, 10)
   cv = {'K': [rnd.choice(ALPHA['K']) for _ in range(n)], 'K2': [rnd.choice(ALPHA['K2']) for _ in range(n)],
         'V': [rnd.choice(ALPHA['V']) for _ in range(n)], 'W': [rnd.choice(ALPHA['W']) for _ in range(n)],
